@@ -399,7 +399,7 @@ Lemma update_shape src buf iy ix by_ bx out :
   update_into src buf iy ix by_ bx = Some out ->
   ih out = ih buf /\ iw out = iw buf /\ imode out = imode buf /\ imode buf = maskable (imode src).
 Proof.
-  unfold update_into.
+  unfold update_into, update_into_gen.
   destruct (rects src buf iy ix by_ bx) as [[[[vy vx] wy] wx]|] eqn:ER; [|discriminate].
   intros H; injection H as <-. cbn [ih iw imode].
   destruct (rects_some _ _ _ _ _ _ _ _ _ _ ER) as (_ & _ & _ & _ & _ & _ & E). auto.
@@ -410,7 +410,7 @@ Lemma update_frame_lemma src buf iy ix by_ bx out :
   update_into src buf iy ix by_ bx = Some out ->
   forall r c, ~ in_rect buf by_ bx r c -> ipx out r c = ipx buf r c.
 Proof.
-  intros Hbh Hbw. unfold update_into.
+  intros Hbh Hbw. unfold update_into, update_into_gen.
   destruct (rects src buf iy ix by_ bx) as [[[[vy vx] wy] wx]|] eqn:ER; [|discriminate].
   intros H; injection H as <-. cbn [ipx]. intros r c Hn.
   destruct (rects_some _ _ _ _ _ _ _ _ _ _ ER) as (Ey & Ex & Fy & Fx & Cy & Cx & Em).
@@ -429,7 +429,7 @@ Lemma update_rect_lemma src buf iy ix by_ bx out :
     selects (ih src) iy p sr -> selects (iw src) ix q sc ->
     ipx out r c = upd_px (imode src) (ipx src sr sc) (ipx buf r c).
 Proof.
-  intros Hbh Hbw. unfold update_into.
+  intros Hbh Hbw. unfold update_into, update_into_gen.
   destruct (rects src buf iy ix by_ bx) as [[[[vy vx] wy] wx]|] eqn:ER; [|discriminate].
   intros H; injection H as <-. cbn [ipx].
   destruct (rects_some _ _ _ _ _ _ _ _ _ _ ER) as (Ey & Ex & Fy & Fx & Cy & Cx & Em).
@@ -488,7 +488,7 @@ Qed.
 Lemma update_ok_lemma src buf iy ix by_ bx out :
   img_ok src -> img_ok buf -> update_into src buf iy ix by_ bx = Some out -> img_ok out.
 Proof.
-  intros Hs Hb. unfold update_into.
+  intros Hs Hb. unfold update_into, update_into_gen.
   destruct (rects src buf iy ix by_ bx) as [[[[vy vx] wy] wx]|] eqn:ER; [|discriminate].
   intros H; injection H as <-. intros r c; cbn [imode ipx].
   destruct (rects_some _ _ _ _ _ _ _ _ _ _ ER) as (_ & _ & _ & _ & _ & _ & Em).
@@ -852,7 +852,7 @@ Proof.
   pose proof (rects_defined src buf iy ix by_ bx vy vx wy wx H1 H2 H3 H4 C1 C2 Em) as ER.
   split; [|split].
   - unfold fill_into. rewrite ER. eexists; reflexivity.
-  - unfold update_into. rewrite ER. eexists; reflexivity.
+  - unfold update_into, update_into_gen. rewrite ER. eexists; reflexivity.
   - intros p q r c Hr Hc. exact (rect_has_source src buf iy ix by_ bx vy vx wy wx p q r c ER Hr Hc).
 Qed.
 
